@@ -273,6 +273,9 @@ func (a *AnySchema) checkAndConvert(data any) (any, error) {
 				return nil, ConstraintErrorAddPathSegment(err, fmt.Sprintf("{%v}", k))
 			}
 			v := t.MapIndex(k)
+			if !v.IsValid() {
+				return nil, invalidMapKeyError(k)
+			}
 			value, err := a.checkAndConvert(v.Interface())
 			if err != nil {
 				return nil, ConstraintErrorAddPathSegment(err, fmt.Sprintf("[%v]", key))
